@@ -5,8 +5,8 @@
     to_full_tensor / _build_contraction_tree / contract_tree / permute_axes /
     perform_tree_contraction, with numpy.einsum modelled by its defining sum [einsum_sem];
     it is tied to /repo by the exact correspondence run of checks/C07.py on every run. *)
-From Qib Require Import TN.TNTreeCheck TN.TNConsistentConv TN.TNGenBase TN.TNRootPermute Base.Inst.
-From Run Require Import GenTN.
+From Qib Require Import TN.TNTreeCheck TN.TNConsistentConv TN.TNGenBase TN.TNRootPermute TN.TNLoops Base.Inst.
+From Run Require Import GenTN GenTNLoops.
 
 (** (a) single-shot contraction.  For every network satisfying the incidence invariant, every
     commutative ring of scalars and all tensor data: what contract_einsum (the literal port:
@@ -369,3 +369,15 @@ Example C07_example_single_leaf_root :
             snd (r_val r) [2; 1; 0]%nat = (6%Z, 0%Z) /\
             check_root ex_leaf (r_tree r) (r_amap r) = true.
 Proof. split; [vm_compute; reflexivity|]. eexists. split; [vm_compute; reflexivity|]. vm_compute. repeat split. Qed.
+
+(** get_bond_axes (read by as_einsum, by the tree builder and by is_consistent), read off the source STATEMENT BY STATEMENT
+    (gen/tnloops.py -> Run.GenTNLoops: the two nested loops, `bond.tids[:i].count(bond.tids[i])`, the `break`, `j -= 1`, the item
+    assignment into `len(bond.tids) * [-1]`, the final `assert all(ax >= 0 ...)`): the regenerated function (Python integers, -1 = not
+    found yet) is the hand model TNModel.get_bond_axes (positions, None = KeyError / AssertionError) for ALL networks and bond ids.
+    gen = TNLoops.lit_get_bond_axes by reflexivity; lit = model in TN/TNLoops.v (gba_inner: the inner loop with its break is find_leg;
+    gba_outer: the outer loop fills position i with the axis found or leaves -1; gba_spec_is_model: the assertion = every leg found).
+    NOT done for _build_contraction_tree and as_einsum's loops: they stay hand-ported (exact correspondence + verified checker). *)
+Theorem C07_source_get_bond_axes_is_model :
+  forall n bid, gen_get_bond_axes n bid = option_map (map Z.of_nat) (get_bond_axes n bid).
+Proof. intros n bid. transitivity (lit_get_bond_axes n bid); [reflexivity | apply lit_get_bond_axes_is_model]. Qed.
+Print Assumptions C07_source_get_bond_axes_is_model.
